@@ -7,12 +7,12 @@ variable {α : Type} [Num α]
 
 /-- the rows `rs`, read from position `ie` of the block `all`, continue each other: the lower bound of a row is the upper
 bound of the row printed before it (what `_check_bins` demands of the first block) -/
-def Contig (all : List (Row α)) (ie : Nat) (rs : List (Row α)) : Prop :=
+def RowsContig (all : List (Row α)) (ie : Nat) (rs : List (Row α)) : Prop :=
   ∀ k (hk : k < rs.length), ie + k ≠ 0 → Num.beq rs[k].lo ((all.getD (ie + k - 1) rs[k]).hi) = true
 
 theorem fillRows_succeeds (all : List (Row α)) : ∀ (rs : List (Row α)) (ie : Nat) (b : B α),
     b.itime < b.nt → b.imu < b.nmu → b.iphi < b.nphi → ie + rs.length ≤ b.ne →
-    (b.cur = (0, 0, 0) → (ie = 0 → b.ebins = []) ∧ Contig all ie rs) →
+    (b.cur = (0, 0, 0) → (ie = 0 → b.ebins = []) ∧ RowsContig all ie rs) →
     ∃ b', fillRows b all ie rs = .ok b' := by
   intro rs
   induction rs with
@@ -104,7 +104,7 @@ theorem fill_succeeds_rest : ∀ (d : List (Block α)) (b : B α),
 
 /-- the same with a first block read under (0, 0, 0) whose rows continue each other -/
 theorem fill_succeeds_first (k0 : Block α) (ks : List (Block α)) (b : B α) (he : b.ebins = [])
-    (h0 : k0.integ = none ∧ k0.rows.length ≤ b.ne) (hc : Contig k0.rows 0 k0.rows)
+    (h0 : k0.integ = none ∧ k0.rows.length ≤ b.ne) (hc : RowsContig k0.rows 0 k0.rows)
     (hlt0 : (curStep b.cur k0).1 < b.nt ∧ (curStep b.cur k0).2.1 < b.nmu ∧ (curStep b.cur k0).2.2 < b.nphi)
     (hk : ∀ k ∈ ks, k.integ = none ∧ k.rows.length ≤ b.ne)
     (hcu : ∀ cu ∈ cursors (curStep b.cur k0) ks, cu ≠ (0, 0, 0) ∧ cu.1 < b.nt ∧ cu.2.1 < b.nmu ∧ cu.2.2 < b.nphi) :
@@ -144,7 +144,7 @@ theorem mem_gridCursors (G : Grid α) {cu : Cur}
 block continue each other -/
 theorem fill_grid_returns (G : Grid α) (ht : 0 < G.nt) (hm : 0 < G.nmu) (hp : 0 < G.nphi)
     (hrows : ∀ it im ip, it < G.nt → im < G.nmu → ip < G.nphi → (G.rows it im ip).length ≤ (G.rows 0 0 0).length)
-    (hc : Contig (G.rows 0 0 0) 0 (G.rows 0 0 0)) :
+    (hc : RowsContig (G.rows 0 0 0) 0 (G.rows 0 0 0)) :
     ∃ b, fill { ne := (G.rows 0 0 0).length, nt := G.nt, nmu := G.nmu, nphi := G.nphi } G.blocks = .ok b := by
   have hcur := cursors_blocks G hp
   have hnd := cursors_blocks_nodup G hp
